@@ -62,7 +62,9 @@ def parseProject (j : Json) : PProject :=
                    results := strList m "results" },
             file := jstrD m "file", free := strList m "free", raw := m } },
     env := { enums := (types.filter (jstrD · "kind" = "enum")).map q, structs := (types.filter (jstrD · "kind" = "struct")).map q,
-             aliases := (types.filter fun t => jstrD t "kind" = "alias" && primAlias t).map q },
+             aliases := (types.filter fun t => jstrD t "kind" = "alias" && primAlias t).map q,
+             errorTypes := (types.filter fun t => jstrD t "kind" = "struct" && (jarrD t "fields").any fun f =>
+               (jboolD f "embedded" || jstrD f "name" = "") && jstrD f "type" = "error").map q },
     enforce := jboolD cfg "enforce",
     defaultSecurity := match (cfg.getObjVal? "defaultSecurity").toOption with
       | some Json.null => none | some d => some (parseSecComp d) | none => none,
@@ -141,6 +143,12 @@ def linkValidateDedup (m : Method) : List Diag := (linkFindings m).eraseDups.map
 /-- is the method picked up as a route at all: it needs @Method and @Route (the visitor ignores others) -/
 def isRoute (m : Method) : Bool := m.annots.any (·.name = "Method") && m.annots.any (·.name = "Route")
 
+/-- the declared struct types that EMBED `error` (a field merely typed `error` does not count) -/
+def errorEmbedders (p : PProject) : List String :=
+  (p.types.filter fun t => jstrD t "kind" = "struct" && (jarrD t "fields").any fun f =>
+      (jboolD f "embedded" || jstrD f "name" = "") && jstrD f "type" = "error").map fun t =>
+    if jstrD t "pkg" = "ctl" then jstrD t "name" else jstrD t "pkg" ++ "." ++ jstrD t "name"
+
 /-- `none` = the validators return a hard error (not a diagnostic) -/
 def modelDiags (p : PProject) : Option (List EDiag) :=
   p.controllers.foldl (fun acc c =>
@@ -149,7 +157,7 @@ def modelDiags (p : PProject) : Option (List EDiag) :=
       let self := (validateControllerSelf c.annots).map fun d => (⟨c.name, "", d.code, d.severity⟩ : EDiag)
       let ms := (c.methods.filter (isRoute ·.m)).foldl (fun acc2 pm =>
         acc2.bind fun ds2 =>
-          (validateReceiver p.env [] p.enforce p.defaultSecurity.isSome c.annots pm.m).map fun r =>
+          (validateReceiver p.env (errorEmbedders p) p.enforce p.defaultSecurity.isSome c.annots pm.m).map fun r =>
             -- validateReceiver = … ++ linkValidate m: swap the raw link findings for the de-duplicated ones
             let r' := r.take (r.length - (linkValidate pm.m).length) ++ linkValidateDedup pm.m
             ds2 ++ r'.map fun d => (⟨c.name, pm.m.name, d.code, d.severity⟩ : EDiag)) (some [])
@@ -201,7 +209,10 @@ def wellLinked (env : TypeEnv) (ctrlRoute : String) (m : Method) : List String :
   (if binds.all (fun a => a.name = "Body" || (nonCtx.filter (·.name = a.value)).all fun p =>
         isPrimitiveLike env p.type && (!isIterable p.type || a.name = "Query")) then [] else ["non-body-primitive"]) ++
   -- returns error or (T, error)
-  (if (match m.results with | [e] => isErrorType e | [_, e] => isErrorType e | _ => false) then [] else ["returns"]) ++
+  (if (match m.results with
+        | [e] => isErrorType e || env.errorTypes.contains (stripPtr e)
+        | [_, e] => isErrorType e || env.errorTypes.contains (stripPtr e)
+        | _ => false) then [] else ["returns"]) ++
   (if Gleece.Generated.routeSupportedHttpVerbs.contains verb then [] else ["verb"])
 
 /-- signatures of the recorded C10 findings on a method that the validators judge differently from
